@@ -1116,6 +1116,11 @@ impl MutableArchive {
 
             // Move to next slot
             index = (index + 1) & (table_size - 1);
+
+            // Every slot is occupied: report it instead of probing forever
+            if index == (table_offset & (table_size - 1)) {
+                return Err(Error::InvalidFormat("Hash table is full".to_string()));
+            }
         }
 
         Ok(())
